@@ -28,4 +28,5 @@ for cid in ids:
             m['caught_after_strengthening'].append(cid)
 json.dump(m, open(mp, 'w'), indent=1)
 sh('git -C /repo worktree remove --force %s' % wt)
-sh('rm -rf /var/tmp/verif-work/*')
+import hashlib
+sh('rm -rf /var/tmp/verif-work/' + hashlib.sha1(wt.encode()).hexdigest()[:10])
